@@ -113,3 +113,14 @@ package measurement
 // Percentage: the ratio that is formatted is a magnitude (never negative, never NaN from a negative zero path).
 //@ func Percentage arith bv
 //@   callsite Sprintf magnitude: !(ratio < 0.0)
+
+// ---- C07/C15: ScaleProfiles — every profile is rescaled with a ratio vector of its own (allocated for that profile, one
+// entry per sample type), a sample type without a common unit gets ratio 1, and for every other sample type the ratio is
+// computed from that profile's own unit in that iteration ----
+//@ func ScaleProfiles nosafety arith bv floatabs=yes
+//@   callsite Profile.ScaleN own_ratios: $arg0 == p && newer($arg1, 5) && len($arg1) == len(p.SampleType)
+//@   loop 5
+//@     mustcall Profile.ScaleN scaled: $arg0 == p when true
+//@   loop 6
+//@     mustcall Scale ratio: $arg0 == 1 && $arg1 == st.Unit when sampleType[i] != nil
+//@     invariant ones: forall k int :: 0 <= k && k < $i && sampleType[k] == nil ==> same(ratios[k], 1.0)
